@@ -90,6 +90,7 @@ def kv(line):
 
 
 PREFS = ["rsa", "p256", "p384"]
+FLAKY_FIRST = ["list", "life", "remove0", "add", "ok"]
 GENKEYS = [("rsa", 1024), ("rsa", 2040), ("rsa", 2041), ("rsa", 2048), ("ecdsa", 224), ("ecdsa", 256), ("ecdsa", 384),
            ("ecdsa", 521), ("ed25519", 256), ("dsa", 1024)]
 
@@ -150,6 +151,22 @@ def agent_ops(rng, nscen, client_types):
             for w in where:
                 ops.append("a addforeign %s %d %s" % (rng.choice([c.hexs("cardno:000611223344"), label]), fresh(), w))
             ops += ["a upsert %s %d %s" % (label, fresh(), kt) for _ in range(2)]
+    # the client's installation sequence (attempt with a lifetime, retry of the same certificate without) against
+    # an agent that fails one request of an attempt: every (first attempt, retry) fault pair for every client key
+    # type, with two earlier certificates under the label each time
+    first = ["ok", "list", "remove0", "remove1", "add", "life"]
+    retry = ["ok", "list", "remove0", "add"]
+    for kt in client_types:
+        label = c.hexs("keymaster-%s-username" % kt.replace(":", ""))
+        other = [t for t in all_types if t != kt]
+        ops += ["a reset", "a add %s %d plain %s" % (label, fresh(), kt), "a add %s %d cert %s" % (c.hexs("other"), fresh(), kt),
+                "a add %s %d cert %s" % (label, fresh(), other[0])]
+        for f1 in first:
+            for f2 in retry:
+                ops += ["a add %s %d cert %s" % (label, fresh(), kt),         # earlier certificates under the label
+                        "a add %s %d cert %s" % (label, fresh(), other[0]),
+                        "a install %s %d %s %s %s" % (label, fresh(), kt, f1, f2)]
+    faults = ["ok", "ok", "list", "remove0", "remove1", "remove2", "add", "life"]
     for _ in range(nscen):
         ops.append("a reset")
         nrsa = 0
@@ -166,7 +183,9 @@ def agent_ops(rng, nscen, client_types):
         label, kt = rng.choice(comments), rng.choice(client_types)
         for _ in range(rng.randrange(1, 7)):
             r = rng.random()
-            if r < 0.6:
+            if r < 0.3:
+                ops.append("a install %s %d %s %s" % (label, fresh(), kt, " ".join(rng.choice(faults) for _ in range(2))))
+            elif r < 0.6:
                 ops.append("a upsert %s %d %s" % (label, fresh(), kt))
             elif r < 0.8:
                 ops.append("a upsert %s %d %s" % (rng.choice(comments), fresh(), rng.choice(client_types)))
@@ -189,6 +208,10 @@ def run(ctx):
     kops = ["k keys %s" % p for p in PREFS] + ["k keys bogus"] + ["k genkey %s %d" % g for g in GENKEYS]
     for p in PREFS:      # the real client's own installation path, three consecutive runs per preference
         kops += ["k install %s noagent" % p, "k install %s agent" % p, "k install %s planted" % p]
+        # … and against an agent that fails one request of the first attempt of each later run (the retry finds it healthy)
+        # (one op per fault: a later healthy run would repair what a faulty one left)
+        kops += ["k install %s flaky:%s+ok" % (p, w) for w in FLAKY_FIRST]
+        kops.append("k install %s flaky:%s" % (p, ",".join(w + "+ok" for w in FLAKY_FIRST)))
     kops.append("k genkeypair")
     if not q:
         kops += ["k genkey rsa 4096", "k genkey rsa 3072"]
@@ -197,7 +220,7 @@ def run(ctx):
         ctx.broken.append("client harness (cmd/keymaster) did not complete (exit %d, %d/%d lines)" % (rc, len(kraw), len(kops)))
         return c.finish(ctx)
     kimpl = strip(kraw)
-    mops, cmp_impl = [], []
+    mops, cmp_impl, msrc = [], [], []
     planted_j = []
     keys = {}       # name -> dict(desc, ssh, pkix)
     offers = []     # (pref, cert, mandatory, keyname, field)
@@ -206,6 +229,7 @@ def run(ctx):
         d = kv(r)
         if f[1] == "keys" and f[2] in PREFS:
             mops.append("offer " + f[2])
+            msrc.append(o)
             cmp_impl.append(l)
             keys[f[2] + ".main"] = {"desc": l.split()[1].split("=")[1], "ssh": c.unhexs(r.split("#sshmain=")[1].split()[0]),
                                     "pkix": None}
@@ -220,7 +244,10 @@ def run(ctx):
             if l.startswith("desc="):
                 keys["gen.%s%s" % (f[2], f[3])] = {"desc": d["desc"], "ssh": c.unhexs(d.get("ssh", "-")), "pkix": c.unhexs(d.get("pkix", "-"))}
         elif f[1] == "install":
-            mops.append("install %s %s 1 ssh" % (f[2], "noagent" if f[3] == "planted" else f[3]))
+            mops.append("install %s %s 1 ssh" % (f[2], "noagent" if f[3] == "planted" else "agent" if f[3].startswith("flaky:") else f[3]))
+            msrc.append(o)
+            if f[3].startswith("flaky:"):
+                cov.setdefault("flaky_agent_installs", {})["%s %s" % (f[2], f[3][6:])] = " ".join(l.split()[:3])
             if f[3] == "planted":
                 kvs = kv(l)
                 planted_j.append(("planted %s %s %s %s" % (kvs.get("captured", "?"), kvs.get("foreignconns", "?"),
@@ -251,12 +278,18 @@ def run(ctx):
             out.append(tok)
         return " ".join(out)
     c.diff_streams(ctx, "cmd/keymaster key generation + installation vs KM.Client.offers / install model", mops, cmp_impl, model, canon=canon)
-    for mo, a, b in zip(mops, cmp_impl, model):
+    for mo, src, a, b in zip(mops, msrc, cmp_impl, model):
         if mo.startswith("install ") and canon(a) != canon(b):
-            f = mo.split()
+            f = src.split()[1:]
+            if f[2].startswith("flaky:"):
+                pending_violation(ctx, "install:%s:flaky-agent" % f[1],
+                                  "insertSSHCertIntoAgentORWriteToFilesystem with the real %s SSH key: a healthy run, then one run per plan "
+                                  "against an agent failing one request of the first attempt (%s; the retry finds it healthy) left %s, "
+                                  "expected %s" % (f[1], f[2][6:], canon(a), canon(b)), {"stream": "k", "ops": [src], "impl": a, "model": b})
+                continue
             pending_violation(ctx, "install:%s:%s" % (f[1], f[2]),
                               "three runs of insertSSHCertIntoAgentORWriteToFilesystem with the real %s SSH key (%s) left %s, expected %s" % (
-                                  f[1], f[2], canon(a), canon(b)), {"stream": "k", "ops": ["k install %s %s" % (f[1], f[2])], "impl": a, "model": b})
+                                  f[1], f[2], canon(a), canon(b)), {"stream": "k", "ops": [src], "impl": a, "model": b})
     # ------------------------------------------------------------------ 2. server acceptance
     sops, smeta = [], []
     for (pref, cert, mand, kn) in offers:
@@ -338,6 +371,8 @@ def run(ctx):
         f = o.split()
         if f[1] == "addforeign":
             return "a add %s %s plain" % (f[2], f[3])
+        if f[1] == "install":
+            return " ".join(f[:4] + f[5:])
         return " ".join(f[:5] if f[1] == "add" else f[:4])
     amops = [mop(o) for o in aops]
     cov["agent_foreign_identities"] = sum(1 for o in aops if o.split()[1] == "addforeign")
@@ -345,17 +380,40 @@ def run(ctx):
     model = c.run_driver(ctx, "model", amops)
     c.diff_streams(ctx, "withAddedKeyUpsertCertIntoAgentConnection on an in-memory agent vs KM.Client.agentUpsert", aops, aimpl, model)
     jops, jmeta = [], []
+
+    def entries(l):
+        """`[ok|fail] list e…` / `reset` → `e,…` (None: the op did not leave a listing)"""
+        t = l.split()
+        if t and t[0] in ("ok", "fail"):
+            t = t[1:]
+        if t and t[0] in ("list", "reset"):
+            return ",".join(t[1:]) or "-"
+        return None
+    cov["agent_installs"] = {}
     for i, (o, l) in enumerate(zip(aops, aimpl)):
         f = o.split()
-        if f[1] == "upsert" and l.startswith("list") and i > 0 and aimpl[i - 1].split()[0] in ("list", "reset"):
-            before = ",".join(aimpl[i - 1].split()[1:]) or "-"
-            after = ",".join(l.split()[1:]) or "-"
+        before = entries(aimpl[i - 1]) if i > 0 else None
+        after = entries(l)
+        if f[1] == "upsert" and l.startswith("list") and before is not None:
             jops.append("agent %s %s %s %s" % (f[2], f[3], before, after))
+            jmeta.append((i, o, before, after))
+        elif f[1] == "install" and after is not None and before is not None:
+            k = "%s:%s" % (" ".join(f[5:]), l.split()[0])
+            cov["agent_installs"][k] = cov["agent_installs"].get(k, 0) + 1
+            jops.append("retry %s %s %s %s" % (f[2], f[3], before, after))
             jmeta.append((i, o, before, after))
     verdicts = c.run_driver(ctx, "judge", jops) if jops else []
     for (i, o, b, a), v in zip(jmeta, verdicts):
         cov["agent_upserts"] += 1
-        if v != "ok":
+        if v != "ok" and o.split()[1] == "install":
+            start = max(j for j in range(i + 1) if aops[j] == "a reset")
+            pending_violation(ctx, "agent-install-retry", "the client's installation sequence (upsert with a lifetime, retry of the same "
+                              "certificate without) of a %s certificate labelled %r against an agent failing one request per attempt "
+                              "(%s): agent before=[%s] after=[%s]: %s (ops: %s)" % (
+                                  o.split()[4], c.unhexs(o.split()[2]), " then ".join(o.split()[5:]), b, a, v,
+                                  "; ".join(aops[start:i + 1])[-600:]),
+                              {"stream": "a", "ops": aops[start:i + 1], "judge": v})
+        elif v != "ok":
             start = max(j for j in range(i + 1) if aops[j] == "a reset")
             pending_violation(ctx, "agent-upsert", "upsert of a %s certificate labelled %r: agent before=[%s] after=[%s]: %s (ops: %s)" % (
                               (o.split() + ["ed25519:256"])[4], c.unhexs(o.split()[2]), b, a, v, "; ".join(aops[start:i + 1])[:600]),
